@@ -25,6 +25,7 @@ type HarnessCfg struct {
 	Feasible   bool // prune infeasible loop iterations with the solver
 	Opts       map[string]string
 	ExpectFail bool // vacuity twin: must be sat
+	Stubs      map[string]string // full function name -> harness-package function
 }
 
 type Obligation struct {
@@ -71,6 +72,7 @@ type retState struct {
 type Exec struct {
 	ts          *TermStore
 	prog        *ssa.Program
+	harnessPkg  *ssa.Package
 	cfg         *HarnessCfg
 	solver      *Portfolio
 	nextObj     int
@@ -587,6 +589,15 @@ func (ex *Exec) execBlock(act *activation, b *ssa.BasicBlock, st *PState) {
 			} else {
 				t := &PState{g: ex.ts.And(st.g, c), heap: st.heap, env: st.env}
 				f := &PState{g: ex.ts.And(st.g, ex.ts.Not(c)), heap: st.heap, env: st.env}
+				if ex.cfg.Feasible && ex.solver != nil {
+					if r := ex.solver.Check([]*Term{t.g}, nil); r.Status == "unsat" {
+						t.g = ex.ts.Bool(false)
+						f.g = st.g
+					} else if r := ex.solver.Check([]*Term{f.g}, nil); r.Status == "unsat" {
+						f.g = ex.ts.Bool(false)
+						t.g = st.g
+					}
+				}
 				ex.deposit(act, b, b.Succs[0], t)
 				ex.deposit(act, b, b.Succs[1], f)
 			}
